@@ -7,6 +7,8 @@ import Mathlib.Tactic.Ring
 import Mathlib.Tactic.Linarith
 import Mathlib.Tactic.NormNum
 import Mathlib.Algebra.Order.Field.Rat
+import Mathlib.Analysis.Complex.Exponential
+import QmcProofs.Dist
 
 namespace Qmc.Classical
 
@@ -252,7 +254,7 @@ theorem energyEdges_sub (edges : List Edge) (biases : List Rat) (s s' : List Boo
   rw [hl, sum_map_sub, sum_map_sub]; ring
 
 theorem spin_delta_aux (edges : List Edge) (biases : List Rat) (s : List Bool) (n i : Nat)
-    (hn : s.length = n) (hwf : WF edges n) (hns : NoSelfLoops edges) (hi : i < n) :
+    (hn : s.length = n) (hns : NoSelfLoops edges) (hi : i < n) :
     energyEdges edges biases (flipAt s i) - energyEdges edges biases s
       = spinDelta (bindingMat edges n) biases s i := by
   have his : i < s.length := by omega
@@ -289,15 +291,18 @@ theorem spin_delta_aux (edges : List Edge) (biases : List Rat) (s : List Bool) (
 theorem st_flip2 (s : List Bool) (a b k : Nat) (ha : a < s.length) (hb : b < s.length) (hab : a ≠ b) :
     st (flipAt (flipAt s a) b) k = if k = a ∨ k = b then !st s k else st s k := by
   rw [st_flipAt _ b k (by rw [length_flipAt]; exact hb), st_flipAt s a k ha, st_flipAt s a b ha]
-  by_cases h1 : k = a <;> by_cases h2 : k = b
-  · exact absurd (h1.symm.trans h2) hab
-  · simp [h1, h2]
-  · have : b ≠ a := fun h => hab h.symm
-    simp [h1, h2, this]; subst h2; simp [this]
-  · simp [h1, h2]
+  have hba : b ≠ a := fun h => hab h.symm
+  by_cases h1 : k = a
+  · simp [h1, hab]
+  · by_cases h2 : k = b
+    · simp [h2, hba]
+    · simp [h1, h2]
+
+theorem cpl_eq_mul (x y : Bool) : cpl x y = sgn x * sgn y := by
+  cases x <;> cases y <;> simp [cpl, sgn]
 
 theorem edge_delta_aux (edges : List Edge) (biases : List Rat) (s : List Bool) (n a b : Nat)
-    (hn : s.length = n) (hwf : WF edges n) (hns : NoSelfLoops edges) (ha : a < n) (hb : b < n)
+    (hn : s.length = n) (hns : NoSelfLoops edges) (ha : a < n) (hb : b < n)
     (hab : a ≠ b) :
     energyEdges edges biases (flipAt (flipAt s a) b) - energyEdges edges biases s
       = edgeDelta (bindingMat edges n) biases s a b := by
@@ -315,9 +320,9 @@ theorem edge_delta_aux (edges : List Edge) (biases : List Rat) (s : List Bool) (
     · intro k _
       rw [st_flip2 s a b k has hbs hab]
       by_cases h1 : k = a
-      · subst h1; simp [sgn_not, hab]; ring
+      · simp [h1, sgn_not, hab, hba]; ring
       · by_cases h2 : k = b
-        · subst h2; simp [sgn_not, hab]; ring
+        · simp [h2, sgn_not, hab, hba]; ring
         · have h1' : a ≠ k := fun h => h1 h.symm
           have h2' : b ≠ k := fun h => h2 h.symm
           simp [h1, h2, h1', h2']
@@ -334,12 +339,164 @@ theorem edge_delta_aux (edges : List Edge) (biases : List Rat) (s : List Bool) (
     intro e he
     have hne := hns e he
     rw [st_flip2 s a b _ has hbs hab, st_flip2 s a b _ has hbs hab]
+    simp only [cpl_eq_mul]
     by_cases h1a : e.1.1 = a <;> by_cases h1b : e.1.1 = b <;> by_cases h2a : e.1.2 = a <;>
       by_cases h2b : e.1.2 = b <;>
       first
       | (exfalso; omega)
-      | (simp [h1a, h1b, h2a, h2b, hab, hba, cpl_not_left, cpl_not_right, cpl_not_not,
-          cpl_comm (st s a), cpl_comm (st s b)] <;> ring)
+      | (simp [h1a, h1b, h2a, h2b, hab, hba, sgn_not] <;> ring)
   rw [he, sum_map_add]; ring
+
+/-! ### moves never change the number of spins -/
+
+theorem length_foldl_flipAt (vars : List Nat) (s : List Bool) :
+    (vars.foldl flipAt s).length = s.length := by
+  induction vars generalizing s with
+  | nil => rfl
+  | cons v t ih => simp [List.foldl_cons, ih, length_flipAt]
+
+theorem length_WM_apply (m : WM) (s : List Bool) : (m.apply s).length = s.length := by
+  cases m <;> simp [WM.apply, length_flipAt]
+
+theorem length_wormLoop (bm : List (List (Nat × Rat))) (n : Nat) (startE : Rat) (doubles : Bool)
+    (fuel : Nat) (pathRev : List WM) (last : Nat) (s : List Bool) (rs : RS) :
+    (wormLoop bm n startE doubles fuel pathRev last s rs).2.1.length = s.length := by
+  induction fuel generalizing pathRev last s rs with
+  | zero => simp [wormLoop]
+  | succ f ih =>
+    unfold wormLoop
+    simp only []
+    split <;> (split <;> [skip; split]) <;> simp [ih, length_WM_apply]
+
+theorem length_doSpinFlip (ch : Rat → Rat) (bm : List (List (Nat × Rat))) (biases : List Rat)
+    (x : List Bool × RS) : (doSpinFlip ch bm biases x).1.length = x.1.length := by
+  unfold doSpinFlip
+  simp only []
+  split <;> simp [length_flipAt]
+
+theorem length_doEdgeFlip (ch : Rat → Rat) (edges : List Edge) (bm : List (List (Nat × Rat)))
+    (biases : List Rat) (cum : Option (List Rat × Rat)) (x : List Bool × RS) :
+    (doEdgeFlip ch edges bm biases cum x).1.length = x.1.length := by
+  unfold doEdgeFlip
+  simp only []
+  split
+  · rfl
+  · split <;> simp [length_flipAt]
+
+theorem length_doWormFlip (ch : Rat → Rat) (bm : List (List (Nat × Rat))) (biases : List Rat)
+    (doubles : Bool) (x : List Bool × RS) :
+    (doWormFlip ch bm biases doubles x).1.length = x.1.length := by
+  unfold doWormFlip
+  simp only []
+  have hl := length_wormLoop bm x.1.length (deltaE bm x.1 (x.2.genRange x.1.length).1 none) doubles
+    (x.1.length + 2) [WM.single (x.2.genRange x.1.length).1] (x.2.genRange x.1.length).1
+    (flipAt x.1 (x.2.genRange x.1.length).1) (x.2.genRange x.1.length).2
+  rw [length_flipAt] at hl
+  split <;> [skip; split] <;> simp [length_foldl_flipAt, hl]
+
+theorem length_iter (k : Nat) (f : List Bool × RS → List Bool × RS)
+    (hf : ∀ x, (f x).1.length = x.1.length) (x : List Bool × RS) :
+    (iter k f x).1.length = x.1.length := by
+  induction k generalizing x with
+  | zero => rfl
+  | succ k ih => simp [iter, ih, hf]
+
+theorem length_doTimeStep (ch : Rat → Rat) (g : Sampler) (ns ne nw : Option Nat) (basic : Bool)
+    (x : List Bool × RS) : (doTimeStep ch g ns ne nw basic x).1.length = x.1.length := by
+  unfold doTimeStep
+  simp only []
+  split
+  · rw [length_iter _ _ (length_doSpinFlip ch g.bm g.biases)]
+  · rw [length_iter _ _ (length_doEdgeFlip ch g.edges g.bm g.biases g.cum)]
+  · rw [length_iter _ _ (length_doWormFlip ch g.bm g.biases true)]
+
+/-! ### kernels on the finite state space `Fin n → Bool` -/
+
+open Qmc.Dist
+
+/-- spin configurations of `n` sites -/
+abbrev Cfg (n : Nat) := Fin n → Bool
+
+/-- the list the sampler stores -/
+def toL {n : Nat} (x : Cfg n) : List Bool := List.ofFn x
+
+/-- flip site `k` (no effect when `k ≥ n`) -/
+def flipN {n : Nat} (k : Nat) (x : Cfg n) : Cfg n := fun j => if j.val = k then !x j else x j
+
+theorem length_toL {n : Nat} (x : Cfg n) : (toL x).length = n := by simp [toL]
+
+theorem st_toL {n : Nat} (x : Cfg n) (j : Fin n) : st (toL x) j.val = x j := by
+  simp [st, toL, List.getD]
+
+theorem toL_flipN {n : Nat} (k : Nat) (x : Cfg n) : toL (flipN k x) = flipAt (toL x) k := by
+  apply List.ext_getElem?
+  intro j
+  unfold flipAt toL
+  rw [List.getElem?_set]
+  by_cases hj : j < n
+  · by_cases hk : k = j
+    · subst hk; simp [List.getElem?_ofFn, hj, flipN, st, List.getD]
+    · have : ¬ j = k := fun h => hk h.symm
+      simp [List.getElem?_ofFn, hj, flipN, hk, this]
+  · by_cases hk : k = j
+    · simp [List.getElem?_ofFn, hj, hk]
+    · simp [List.getElem?_ofFn, hj, hk]
+
+theorem flipN_flipN {n : Nat} (k : Nat) (x : Cfg n) : flipN k (flipN k x) = x := by
+  funext j; simp only [flipN]; split_ifs <;> simp
+
+theorem flipN_comm {n : Nat} (a b : Nat) (x : Cfg n) : flipN a (flipN b x) = flipN b (flipN a x) := by
+  funext j; simp only [flipN]; split_ifs <;> simp
+
+theorem flip2_invol {n : Nat} (a b : Nat) (x : Cfg n) :
+    flipN b (flipN a (flipN b (flipN a x))) = x := by
+  rw [flipN_comm a b, flipN_flipN, flipN_flipN]
+
+/-- probability that `should_flip` accepts: `1` when `ΔE ≤ 0`, else `P(u < exp(−βΔE))` for `u`
+uniform on `[0,1)`, i.e. `min 1 (exp(−βΔE))`. -/
+noncomputable def acc (β : ℝ) (de : ℚ) : ℝ :=
+  if 0 < de then min 1 (Real.exp (-β * (de : ℝ))) else 1
+
+theorem acc_nonneg (β : ℝ) (de : ℚ) : 0 ≤ acc β de := by
+  unfold acc; split
+  · exact le_min zero_le_one (Real.exp_pos _).le
+  · exact zero_le_one
+
+theorem acc_le_one (β : ℝ) (de : ℚ) : acc β de ≤ 1 := by
+  unfold acc; split
+  · exact min_le_left _ _
+  · exact le_refl _
+
+/-- Boltzmann weight (not normalised) of the energy function `E` -/
+noncomputable def boltz {α : Type} (E : α → ℚ) (β : ℝ) (x : α) : ℝ := Real.exp (-β * (E x : ℝ))
+
+theorem boltz_pos {α : Type} (E : α → ℚ) (β : ℝ) (x : α) : 0 < boltz E β x := Real.exp_pos _
+
+/-- Metropolis acceptance `if ΔE > 0 then exp(−βΔE) else 1` balances the Boltzmann weights of a
+state and its image under an involution, when the `ΔE` it uses is the true energy difference. -/
+theorem acc_balance {α : Type} (E : α → ℚ) (β : ℝ) (hβ : 0 ≤ β) (f : α → α)
+    (hinv : ∀ a, f (f a) = a) (d : α → ℚ) (hd : ∀ a, d a = E (f a) - E a) (a : α) :
+    boltz E β a * acc β (d a) = boltz E β (f a) * acc β (d (f a)) := by
+  have hda : d (f a) = - d a := by rw [hd, hd, hinv]; ring
+  have hE : (E (f a) : ℝ) = (E a : ℝ) + (d a : ℝ) := by rw [hd]; push_cast; ring
+  unfold acc boltz
+  rw [hda]
+  rcases lt_trichotomy (d a) 0 with h | h | h
+  · have h1 : ¬ (0 < d a) := not_lt.mpr h.le
+    have h2 : (0 : ℚ) < - d a := by linarith
+    have h3 : (d a : ℝ) < 0 := by exact_mod_cast h
+    have hle : Real.exp (-β * ((-d a : ℚ) : ℝ)) ≤ 1 := by
+      rw [Real.exp_le_one_iff]; push_cast; nlinarith
+    rw [if_neg h1, if_pos h2, min_eq_right hle, hE, ← Real.exp_add]
+    push_cast; ring_nf
+  · have h1 : ¬ (0 < d a) := by rw [h]; exact lt_irrefl _
+    have h2 : ¬ ((0 : ℚ) < - d a) := by rw [h]; simp
+    rw [if_neg h1, if_neg h2, hE, h]; simp
+  · have h1 : ¬ ((0 : ℚ) < - d a) := by linarith
+    have h3 : (0 : ℝ) < (d a : ℝ) := by exact_mod_cast h
+    have hle : Real.exp (-β * (d a : ℝ)) ≤ 1 := by
+      rw [Real.exp_le_one_iff]; nlinarith
+    rw [if_pos h, if_neg h1, min_eq_right hle, hE, ← Real.exp_add]
+    ring_nf
 
 end Qmc.Classical
